@@ -48,3 +48,29 @@ def gufunc_signatures(fn):
         n_in = len(re.findall(r"\([^)]*\)", lhs))
         return sigs, layout, n_in
     return None
+
+
+def gufunc_contiguous_args(fn):
+    """-> list of (signature index, argument index, text) for arguments declared with a fixed layout (`[::1]`, `[:, ::1]`, `[::1, :]`).
+
+    Numba trusts such a declaration: the compiled loop ignores the real strides of what it is handed, so a caller passing a strided
+    view (a column of a table, every second element, a transposed block) gets the wrong memory read without any error."""
+    out = []
+    for dec in fn.node.decorator_list:
+        call = _find_call(dec, "guvectorize")
+        if call is None:
+            continue
+        sigs_node = call.args[0]
+        items = sigs_node.elts if isinstance(sigs_node, (ast.List, ast.Tuple)) else [sigs_node]
+        for si, it in enumerate(items):
+            if isinstance(it, ast.Constant) and isinstance(it.value, str):
+                inner = it.value.strip().strip("()")
+                parts = [p for p in re.split(r",\s*(?![^\[]*\])", inner) if p.strip()]
+            elif isinstance(it, ast.Tuple):
+                parts = [ast.unparse(e) for e in it.elts]
+            else:
+                parts = [ast.unparse(it)]
+            for ai, ptxt in enumerate(parts):
+                if "::1" in ptxt.replace(" ", ""):
+                    out.append((si, ai, ptxt.strip()))
+    return out
